@@ -23,6 +23,7 @@ type (
 func NewCond(l Locker) *Cond { return sync.NewCond(l) }
 
 type thread struct {
+	holding int // number of vsync mutexes currently held by this thread
 	id      int
 	wake    chan struct{}
 	blocked func() bool // non-nil: not enabled while it returns true
@@ -199,6 +200,14 @@ func Point(label string) {
 	if !s.active || s.cur == nil {
 		return
 	}
+	// Inside a critical section the thread is atomic with respect to every
+	// other thread that takes the same lock; a thread that touches the same data
+	// WITHOUT the lock is a data race, which the free-running -race pass of the
+	// same bodies reports. Making every protected access a scheduling point would
+	// only multiply equivalent schedules.
+	if s.cur.holding > 0 {
+		return
+	}
 	s.switchFrom(s.cur, label)
 }
 
@@ -223,6 +232,7 @@ func (m *Mutex) Lock() {
 	}
 	t.blocked = nil
 	m.held = true
+	t.holding++
 }
 
 func (m *Mutex) Unlock() {
@@ -238,6 +248,7 @@ func (m *Mutex) Unlock() {
 	// it is disabled if that is a Lock of a held mutex. A point after the
 	// release would leave it enabled-but-idle during another thread's whole
 	// critical section, multiplying equivalent schedules.
+	s.cur.holding--
 	s.switchFrom(s.cur, "Unlock")
 	m.held = false
 }
@@ -251,6 +262,7 @@ func (m *Mutex) TryLock() bool {
 		return false
 	}
 	m.held = true
+	s.cur.holding++
 	return true
 }
 
@@ -274,6 +286,7 @@ func (m *RWMutex) Lock() {
 	}
 	t.blocked = nil
 	m.writer = true
+	t.holding++
 }
 
 func (m *RWMutex) Unlock() {
@@ -281,6 +294,7 @@ func (m *RWMutex) Unlock() {
 		m.real.Unlock()
 		return
 	}
+	s.cur.holding--
 	s.switchFrom(s.cur, "RW.Unlock")
 	m.writer = false
 }
